@@ -258,6 +258,13 @@ def _race(name, qtext, qf_builder, z3_only=False, budgets=None):
                            ninst=0, gen_time=0.0, text=None)
                 return out
             jq.close()
+            # ---- stage A2: the same quantified text to z3 (E-matching differs from cvc5's); only `unsat` is used
+            r = run_z3_cli(qtext, budgets.get("zq_fast", 4))
+            trail.append(("z3-q", r[0], round(r[1], 3)))
+            if r[0] == "unsat":
+                out.update(verdict="unsat", backend="z3-q", time=time.time() - t_start, model=None, trail=trail,
+                           ninst=0, gen_time=0.0, text=None)
+                return out
             jq = Cvc5Job(qtext, budgets.get("q_slow", Q_SLOW), "cvc5-q")
             jobs.append(jq)
         # ---- stage B: quantifier-free form
